@@ -395,7 +395,7 @@ fn parse(case: &str) -> Option<Case> {
             if part[1] != "-" {
                 return None;
             }
-        } else if !matches!(part[0], "https" | "http" | "HTTPS" | "https+ohttp" | "http+ohttps") {
+        } else if !matches!(part[0], "https" | "http" | "HTTPS" | "https+ohttp" | "http+ohttps" | "https+oBhttps" | "https+oChttps") {
             return None;
         }
         let idx = clients.len();
@@ -1060,9 +1060,20 @@ async fn prepare_client<IO: Transport>(idx: usize, spec: &ClientSpec, env: &mut 
         }
     } else {
         // `<scheme>+o<scheme2>`: endpoint URI with <scheme>, plus `Endpoint::origin(<scheme2>://…)`
-        let (scheme, origin) = match spec.scheme.split_once("+o") {
-            Some((s, o)) => (s, Some(format!("{}://{}:50051", o, host))),
-            None => (spec.scheme.as_str(), None),
+        // `+oB<scheme2>` / `+oC<scheme2>`: the origin names ANOTHER host (a proxy or load balancer reached by
+        // address, seed C15f) and is set Before / after (`C`) `tls_config`: the peer is still authenticated
+        // against the endpoint URI's host (or `domain_name`), never against the origin's
+        let (scheme, origin, origin_first) = match spec.scheme.split_once("+o") {
+            Some((s, o)) => {
+                let (alt, first, o2) = match (o.strip_prefix('B'), o.strip_prefix('C')) {
+                    (Some(x), _) => (true, true, x),
+                    (_, Some(x)) => (true, false, x),
+                    _ => (false, false, o),
+                };
+                let oh = if !alt { host } else if host == "bad.test" { "good.test" } else { "bad.test" };
+                (s, Some(format!("{}://{}:50051", o2, oh)), first)
+            }
+            None => (spec.scheme.as_str(), None, false),
         };
         let port = if native {
             match start_proxy::<IO>(dial.clone(), log.clone(), dials.clone()).await {
@@ -1122,6 +1133,7 @@ async fn prepare_client<IO: Transport>(idx: usize, spec: &ClientSpec, env: &mut 
             match &cfg {
                 None => Ok(with_origin(ep)),
                 // Endpoint::tls_config consumes a configuration: it gets a clone, the value stays
+                Some(t) if origin_first => with_origin(ep).tls_config(t.clone()).map_err(|e| classify_cfg_err(&e)),
                 Some(t) => ep.tls_config(t.clone()).map(with_origin).map_err(|e| classify_cfg_err(&e)),
             }
         }
@@ -1640,6 +1652,16 @@ const CORPUS: &[&str] = &[
     "tls https+ohttp good notls ; s1good plain - tcp",
     "tls https+ohttp good ca:ca1 ; s1good h2 - tcp",
     "tls http+ohttps good ca:ca1 ; s1good plain - tcp",
+    // … and it does not name the peer: an origin with ANOTHER host, set before or after tls_config (seed C15f)
+    "tls https+oBhttps good ca:ca1 ; s1good h2 - tcp",
+    "tls https+oBhttps bad ca:ca1 ; s1good h2 - tcp",
+    "tls https+oChttps good ca:ca1 ; s1good h2 - duplex",
+    "tls https+oChttps bad ca:ca1 ; s1good h2 - duplex",
+    "tls https+oBhttps bad ca:ca1 dom:good ; s1good h2 - duplex",
+    "tls https+oBhttps good ca:ca1 dom:bad ; s1good h2 - tcp",
+    "tls https+oBhttps good ca:ca1 ; s1bad h2 - duplex",
+    "tls https+oBhttps bad ca:ca1 ; s1bad h2 - duplex-lazy",
+    "tls https+oBhttps ip ca:ca1 ; s1good h2 - tcp",
     // https client against a plaintext server and the reverse
     "tls https good ca:ca1 h2:1 ; s1good plain - tcp",
     "tls https good ca:ca1 h2:1 ; s1good plain - duplex",
@@ -2376,6 +2398,8 @@ pub fn generate(tier: &str, rng: &mut Rng) -> Vec<String> {
             *rng.pick(&["http", "http+ohttps"])
         } else if rng.chance(1, 20) {
             *rng.pick(&["HTTPS", "https+ohttp"])
+        } else if rng.chance(1, 10) {
+            *rng.pick(&["https+oBhttps", "https+oBhttps", "https+oChttps"])
         } else {
             "https"
         };
